@@ -83,7 +83,9 @@ def oracle(ops, meta, il):
 def run(R):
     ok, badthm = R.prove()
     ops, meta = build_ops(R)
-    ops, meta, il, ml = CS.run_budgeted(R, ops, meta)
+    # every 'setup' op and every grammar-stream op starts a self-contained group
+    starts = [i for i, (o, m) in enumerate(zip(ops, meta)) if m[1] == "setup" or not any(m[1].startswith(p) for p in ("mutation", "size", "entry-"))]
+    ops, meta, il, ml = CS.run_budgeted(R, ops, meta, group_starts=starts)
     def proj(op, a, b):
         if not op.startswith("C "): return None if a == b else "setup op differs"
         return CS.proj_crypt(op, a, b)
